@@ -169,9 +169,22 @@ func TestCodec(t *testing.T) {
 		if err != nil {
 			t.Fatal(err)
 		}
-		defer st.Close()
+		defer func() { st.Close() }()
 		defer os.Remove(p)
 		for i, m := range ms {
+			// a restart between two rewrites: the next write goes through a freshly opened handle
+			// (sometimes after a Read, as server.New does)
+			if i > 0 && rng.Chance(35) {
+				st.Close()
+				st, err = store.New(p)
+				if err != nil {
+					t.Fatal(err)
+				}
+				res.Count("rewrite-after-reopen")
+				if rng.Chance(50) {
+					st.Read()
+				}
+			}
 			if err := st.Write(m); err != nil {
 				t.Fatal(err)
 			}
